@@ -162,6 +162,20 @@ func candsOf(r *gRun, key string) (*slotCands, bool) {
 	return sc, true
 }
 
+// nothingSubstituted: no node of the scenario asks a post-processor for a substitute, filters instantiation, or is itself a
+// user post-processor (C02's "when no post-processor substitutes components")
+func (r *gRun) nothingSubstituted() bool {
+	if r.sc.loaderFail || r.sc.scanFail {
+		return false
+	}
+	for _, n := range r.sc.nodes {
+		if n.flt != 0 || n.early != 0 || n.after != 0 || utInfos[n.ty].pp {
+			return false
+		}
+	}
+	return true
+}
+
 // tiedSlots: single-valued by-type/func points with several equally ranked candidates
 func tiedSlots(r *gRun) map[string][]int {
 	out := map[string][]int{}
@@ -300,6 +314,9 @@ func (r *gRun) matchOracles(add func(sig, format string, a ...any)) {
 				// whole point (error when required, untouched when optional): completeness is not demanded then
 				if !got[c] && !anyUndeliverable(r, sc.kind, tgt, sc.admitted) {
 					add("c06-slice-complete", "slice point %s lacks compatible component row %d", key, c)
+					if sc.required && r.nothingSubstituted() {
+						add("c02-populated", "start-up succeeded, nothing is substituted, but the required slice point %s lacks its target row %d", key, c)
+					}
 				}
 			}
 			for c := range got {
@@ -333,6 +350,9 @@ func (r *gRun) matchOracles(add func(sig, format string, a ...any)) {
 			if len(rows) == 0 && len(sc.choice) > 0 && !(len(sc.choice) == 1 && sc.choice[0] == sc.holder) &&
 				!anyUndeliverable(r, sc.kind, tgt, sc.choice) {
 				add("c06-single-missing", "single point %s is empty although candidates %v exist", key, sc.choice)
+				if sc.required && r.nothingSubstituted() {
+					add("c02-populated", "start-up succeeded, nothing is substituted, but the required point %s is empty although candidates %v exist", key, sc.choice)
+				}
 			}
 		}
 	}
